@@ -179,6 +179,10 @@ class Conf(object):
             return lambda d: kids[d[0]][0] == k0 or w1 in toks[d[1]]
         if name == "and":
             return lambda d: w0 in toks[d[1]] and w1 in toks[d[1]]
+        if name == "colq":
+            return lambda d: d[1] == 0          # column g holds "g<text index>"
+        if name == "colq_and":
+            return lambda d: d[1] == 0 and w0 in toks[d[1]]
         raise ValueError(name)
 
     def query(self, name, arg=None):
@@ -198,6 +202,11 @@ class Conf(object):
             return Q.Or([Q.Term("key", self.keyvals[0]), Q.Term("t", w1)])
         if name == "and":
             return Q.And([Q.Term("t", w0), Q.Term("t", w1)])
+        if name == "colq":
+            # matches on the per-document column instead of the postings
+            return Q.ColumnQuery("g", u"g0")
+        if name == "colq_and":
+            return Q.And([Q.ColumnQuery("g", u"g0"), Q.Term("t", w0)])
         raise ValueError(name)
 
     def del_spec(self, op):
@@ -220,7 +229,7 @@ class Conf(object):
         if has_e:
             out.append(("e", "E"))
         out += [("every", None), ("everyf", None), ("not", None), ("notkey", None),
-                ("or", None), ("and", None)]
+                ("or", None), ("and", None), ("colq", None), ("colq_and", None)]
         return out
 
 
